@@ -45,6 +45,23 @@ def handlers : List (String → Json → Option (Except String Json)) :=
    HedVerif.Driver.C19.handle,
    HedVerif.Driver.C20.handle]
 
+/-- handlers that read or write the session state (installed vocabularies) -/
+def ioHandlers : List (String → Json → Option (IO (Except String Json))) :=
+  [HedVerif.Driver.C03.handleIO]
+
+def dispatchIO (j : Json) : IO (Option Json) := do
+  match getString j "op" with
+  | .error _ => pure none
+  | .ok op =>
+    for h in ioHandlers do
+      match h op j with
+      | some act =>
+        match ← act with
+        | .ok r => return some r
+        | .error e => return some (jobj [("bad-op", Json.str e)])
+      | none => pure ()
+    pure none
+
 def dispatch (j : Json) : Json :=
   match getString j "op" with
   | .error e => jobj [("bad-op", Json.str e)]
@@ -62,9 +79,12 @@ partial def loop (hin : IO.FS.Stream) (hout : IO.FS.Stream) : IO Unit := do
   if line.isEmpty then return ()
   let t := line.trimAscii.toString
   if t.isEmpty then loop hin hout else
-  let out := match Json.parse t with
-    | .error e => jobj [("bad-op", Json.str s!"json: {e}")]
-    | .ok j => dispatch j
+  let out ← match Json.parse t with
+    | .error e => pure (jobj [("bad-op", Json.str s!"json: {e}")])
+    | .ok j => do
+      match ← dispatchIO j with
+      | some r => pure r
+      | none => pure (dispatch j)
   hout.putStrLn out.compress
   loop hin hout
 
